@@ -16,7 +16,7 @@ def run(ctx):
     ctx.cov["trusted_base"] = ["TLC 1.8.0", "java.math.BigInteger (BigNat override)", "SM2.tla / ECurve.tla / SM3.tla (anchored by the GM/T 0003.5 and GM/T 0004 examples)"]
     ctx.tlc("ECurveKAT", "ECurveKAT.cfg", workers=1)
     rk = lambda: hex(rnd.randrange(2, N - 1))[2:]
-    sk = find_special_keys(ctx, 1500 if thorough else 400)
+    sk = find_special_keys(ctx, 1500 if thorough else 800)
     special = [hex(d)[2:] for d, _, _ in sk]
     shortx = [hex(d)[2:] for d, xl, _ in sk if xl < 32]      # x~ = 2^w + (x & (2^w - 1)) is taken from the ephemeral x: short ones matter
     # ephemeral keys that make a coordinate of the shared point short (leading zero byte): TLC searches
@@ -41,14 +41,45 @@ def run(ctx):
         c["ra" if i % 2 == 0 else "rb"] = s
         cases.append(c)
     cases.append({"kind": "kx", "da": "1", "db": hex(N - 2)[2:], "ra": "2", "rb": "3", "ida": {"kind": "default"}, "idb": {"kind": "default"}, "klen": 16})
+    # both ephemeral keys with a short x coordinate in ONE exchange
+    if len(shortx) < 2:
+        raise Infra("fewer than two small scalars with a short x coordinate found")
+    else:
+        cases.append({"kind": "kx", "da": rk(), "db": rk(), "ra": shortx[0], "rb": shortx[1], "ida": ids(2), "idb": ids(5), "klen": 16, "note": "both ephemeral x with a leading zero byte"})
+    # t = d + x~ r = 0 (mod n): the shared point is the point at infinity and the standard makes both parties fail.
+    # x~ comes from the ephemeral public point, which TLC computes for a small r; d is then chosen to cancel it.
+    for side, r in (("a", 5), ("b", 11)):
+        fk = tlc_table(ctx, [{"kind": "findkey", "d": r}], "findkey")[0]["expect"]
+        xhat = (1 << 127) + (int(fk["x"], 16) & ((1 << 127) - 1))
+        dz = hex((N - xhat * r) % N)[2:]
+        c = {"kind": "kx", "da": rk(), "db": rk(), "ra": rk(), "rb": rk(), "ida": ids(3), "idb": ids(4), "klen": 16, "note": "t = 0 mod n for party " + side.upper()}
+        c["d" + side], c["r" + side] = dz, hex(r)[2:]
+        cases.append(c)
+    # short keys: the exchange of (da, db, rb) with r_A = 2..n for key lengths 1 and 2 in the real code; every exchange in which a party
+    # fails or the parties disagree becomes a case for the specification (a one-byte key is 00 in one exchange out of 256: still a key)
+    tf, sf = os.path.join(ctx.work, "sweep.json"), os.path.join(ctx.work, "sweep.out.json")
+    with open(tf, "w") as f:
+        json.dump({"da": da, "db": db, "rb": rb, "ida": ids(3), "idb": ids(3), "klens": [1, 2]}, f)
+    nsweep = 6000 if thorough else 1500
+    ctx.harness(["c13-sweep", tf, str(nsweep), sf])
+    sw = json.load(open(sf))
+    swept = []     # (case, what the real code returned in the sweep: the same key OBJECTS serve every exchange of the sweep)
+    for x in sw["odd"] + sw["zero"] + [sw["last"]]:
+        swept.append(({"kind": "kx", "da": da, "db": db, "ra": x["ra"], "rb": rb, "ida": ids(3), "idb": ids(3), "klen": x["klen"], "note": "short-key sweep: " + x["why"][:80]}, x["got"]))
+        cases.append({"kind": "kx", "da": da, "db": db, "ra": x["ra"], "rb": rb, "ida": ids(3), "idb": ids(3), "klen": x["klen"], "note": "short-key sweep: " + x["why"][:80]})
+    ctx.log("short-key sweep: %d exchanges with key length 1 or 2; %d with an error or disagreement and %d with an all-zero key handed to the specification" % (sw["exchanges"], len(sw["odd"]), len(sw["zero"])))
+    ctx.cov["short_key_all_zero_cases"] = len(sw["zero"])
+    ctx.cov["short_key_exchanges"] = sw["exchanges"]
     rows = tlc_table(ctx, cases, "kx")
     bad = [dict(cases[5], bad="offcurve"), dict(cases[5], bad="infinity"), dict(cases[5], bad="xplusp"), dict(cases[5], bad="yminusp")]
     casef = os.path.join(ctx.work, "kx.ndjson")
     obsf = os.path.join(ctx.work, "kx.obs.ndjson")
     write_ndjson(casef, [{"case": x["case"]} for x in rows] + [{"case": c} for c in bad])
     ctx.harness(["c13-run", casef, obsf])
-    obs = read_ndjson(obsf)
+    obs = read_ndjson(obsf) + [{"case": dict(c, note=c["note"] + " (as observed in the sweep, key objects reused)"), "got": g} for c, g in swept]
     exp = {json.dumps(x["case"], sort_keys=True): x["expect"] for x in rows}
+    for c, g in swept:
+        exp[json.dumps(dict(c, note=c["note"] + " (as observed in the sweep, key objects reused)"), sort_keys=True)] = exp[json.dumps(c, sort_keys=True)]
     ok = 0
     for o in obs:
         c, g = o["case"], o["got"]
@@ -63,7 +94,11 @@ def run(ctx):
             e = exp[json.dumps(c, sort_keys=True)]
             if not e["same"]:
                 raise Infra("specification inconsistent")
-            for side in ("a", "b"):
+            if e["fail"]:
+                for side in ("a", "b"):
+                    if not g[side]["err"]:
+                        probs.append("party %s derived a key although its point is the point at infinity (GM/T 0003.3 A5/B5: fail)" % side.upper())
+            for side in ("a", "b") if not e["fail"] else ():
                 if g[side]["err"]:
                     probs.append("party %s failed" % side.upper())
                     continue
@@ -71,7 +106,7 @@ def run(ctx):
                     probs.append("party %s: shared key differs from GM/T 0003.3" % side.upper())
                 if g[side]["s1"] != e["s1"] or g[side]["s2"] != e["s2"]:
                     probs.append("party %s: confirmation values differ from GM/T 0003.3" % side.upper())
-            if not probs and (g["a"]["k"] != g["b"]["k"] or g["a"]["s1"] != g["b"]["s1"] or g["a"]["s2"] != g["b"]["s2"]):
+            if not probs and not e["fail"] and (g["a"]["k"] != g["b"]["k"] or g["a"]["s1"] != g["b"]["s1"] or g["a"]["s2"] != g["b"]["s2"]):
                 probs.append("the two parties disagree")
         if probs:
             ctx.violation("key exchange %s: %s" % (json.dumps({k: v for k, v in c.items() if k in ("ida", "idb", "klen", "note", "bad")}, sort_keys=True), "; ".join(probs)), {"case": c, "observed": g})
